@@ -210,12 +210,16 @@ def refineLiveR (fn : Fn R) (K : ConstsR R) (s : StateR R) : Bool :=
   | .error _ => true
   | .ok s1 => refineLive fn (Gen.refineConsts fn) (lminSq K) (lmaxSq K) K.swapOn (faceTypes K s1.cell) K.maxIter
 
-/-- the next `solver::run_iteration` is `cellIterationR` (an exception of the refiner counts: the model reports the same one) -/
-def stepOkR (fn : Fn R) (fx : FX R) (K : ConstsR R) (s : StateR R) : Bool :=
-  !readyR K s && refineLiveR fn K s &&
-  match meshStage fn K s with
+/-- the domain test, given the verdict of `refineLiveR` and the result of `meshStage` (so that the driver evaluates both once) -/
+def stepOkFrom (fx : FX R) (K : ConstsR R) (s : StateR R) (live : Bool) (ms : Except Err (StateR R)) : Bool :=
+  !readyR K s && live &&
+  match ms with
   | .error e => e != Err.fuel
   | .ok s1 => meshOk s1.cell && !belowMinR fx K s1
+
+/-- the next `solver::run_iteration` is `cellIterationR` (an exception of the refiner counts: the model reports the same one) -/
+def stepOkR (fn : Fn R) (fx : FX R) (K : ConstsR R) (s : StateR R) : Bool :=
+  stepOkFrom fx K s (refineLiveR fn K s) (meshStage fn K s)
 
 /-- … for each of the next n iterations -/
 def runOkR (fn : Fn R) (fx : FX R) (K : ConstsR R) : Nat → StateR R → Bool
